@@ -333,7 +333,9 @@ func (p *VipnodePool) Client(ctx context.Context, sig string, nodeID string, non
 
 	// Clients have a default number of hosts they request. Hosts don't.
 	numRequestHosts := defaultRequestNumHosts
-	if req.NumHosts > 0 {
+	if req.NumHosts != 0 {
+		// A count was named (0 is what a request without one decodes to). A
+		// negative one gets no hosts, like in vipnode_peer.
 		numRequestHosts = req.NumHosts
 	}
 	hosts, err := p.requestHosts(ctx, nodeID, numRequestHosts, req.Kind)
